@@ -17,6 +17,27 @@ def run(ck):
     # ---- Engine A: LocalTimeType::new / with_ut_offset / TzAsciiStr::new + as_bytes on an arbitrary byte slice of symbolic length 0..9
     A = EngineA(ck, unwind={'new': 8, 'TzAsciiStr::new': 8})
     ex = A.ex
+    CLASS = set(b'0123456789ABCDEFGHIJKLMNOPQRSTUVWXYZabcdefghijklmnopqrstuvwxyz+-')
+
+    def rp_ascii(m, with_ltt=False):
+        """native replay of a designation model, judged by the statement's own rule (3..7 bytes of [0-9A-Za-z+-])"""
+        ln = m.get('n', 0)
+        v = bytes(m.get(f'b{i}', 0) for i in range(min(ln, 9)))
+        want_ok = 3 <= len(v) <= 7 and all(c in CLASS for c in v)
+        cmds = [f'ascii {v.hex() or "-"}']
+        if with_ltt:
+            off = m.get('off', 0)
+            want_ok = want_ok and off > -2**31
+            cmds = [f'ltt {off} 0 {v.hex() or "-"}']
+        for o in nat.both(cmds)[0]:
+            if o.startswith('panic'):
+                return f'`{cmds[0]}` panics', {'cmd': cmds[0], 'kind': 'designation', 'want_ok': want_ok}
+            if o.startswith('ok') != want_ok:
+                return (f'designation {v!r}: natively {"accepted" if o.startswith("ok") else "refused"} ({o!r}); the rule "3-7 characters of [A-Za-z0-9+-]" says {"accept" if want_ok else "refuse"}',
+                        {'cmd': cmds[0], 'kind': 'designation', 'want_ok': want_ok})
+            if want_ok and not with_ltt and o.split()[1] != (bytes([len(v)]) + v + bytes(7 - len(v))).hex():
+                return f'designation {v!r} stored as {o!r}', {'cmd': cmds[0], 'kind': 'designation', 'want_ok': want_ok}
+        return None
     E_ = A.mir.enums
     bs = [I(f'b{i}', 'u8') for i in range(9)]
     n = I('n')
@@ -29,7 +50,7 @@ def run(ck):
     def okch(b):
         return OR(AND(CMP('<=', 48, b), CMP('<=', b, 57)), AND(CMP('<=', 65, b), CMP('<=', b, 90)), AND(CMP('<=', 97, b), CMP('<=', b, 122)), CMP('=', b, 43), CMP('=', b, 45))
     spec = AND(CMP('<=', 3, n), CMP('<=', n, 7), *[OR(CMP('<=', n, i), okch(bs[i])) for i in range(9)])
-    A.claim('ascii:accept_iff_3_to_7_chars_of_class', NOT(IFF(ok, spec)), get=bs + [n], replay=lambda m: None, meaning='TzAsciiStr::new accepts <=> 3<=len<=7 and every byte in [0-9A-Za-z+-]')
+    A.claim('ascii:accept_iff_3_to_7_chars_of_class', NOT(IFF(ok, spec)), get=bs + [n], replay=rp_ascii, meaning='TzAsciiStr::new accepts <=> 3<=len<=7 and every byte in [0-9A-Za-z+-]')
     lenbad = NOT(AND(CMP('<=', 3, n), CMP('<=', n, 7)))
     kind = r['$v']['Err'][0]['$d']
     A.claim('ascii:error_kind', AND(NOT(ok), NOT(ITE(lenbad, CMP('=', kind, E_['LocalTimeTypeError']['InvalidTimeZoneDesignationLength']), CMP('=', kind, E_['LocalTimeTypeError']['InvalidTimeZoneDesignationChar']), 'Bool'))), replay=lambda m: None)
@@ -45,7 +66,7 @@ def run(ck):
     A.claim('with_ut_offset:accept_iff_not_i32_min', NOT(IFF(CMP('=', w['$d'], 0), CMP('>', off, rng('i32')[0]))), get=[off], replay=lambda m: None)
     dflag = B('isdst')
     full = ex.call('LocalTimeType::new', [off, dflag, {'$d': 1, '$v': {'Some': [inp]}}])
-    A.claim('ltt_new:accept_iff', NOT(IFF(CMP('=', full['$d'], 0), AND(CMP('>', off, rng('i32')[0]), spec))), get=[off, n] + bs, replay=lambda m: None)
+    A.claim('ltt_new:accept_iff', NOT(IFF(CMP('=', full['$d'], 0), AND(CMP('>', off, rng('i32')[0]), spec))), get=[off, n] + bs, replay=lambda m: rp_ascii(m, True))
     fv = full['$v']['Ok'][0]
     A.claim('ltt_new:fields_stored', AND(CMP('=', full['$d'], 0), NOT(AND(CMP('=', fv['ut_offset'], off), IFF(fv['is_dst'], dflag)))), replay=lambda m: None)
     none = ex.call('LocalTimeType::new', [off, dflag, {'$d': 0, '$v': {}}])
@@ -78,4 +99,9 @@ def run(ck):
 
 
 def replay(ck, case):
+    c = case['case']
+    if c.get('kind') == 'designation':
+        out = common.Native().both([c['cmd']])[0]
+        print('native (dev, release):', out, 'want accepted:', c['want_ok'])
+        return 1 if any(o.startswith('panic') or o.startswith('ok') != c['want_ok'] for o in out) else 0
     return kprop.replay_playback(ck, case)
